@@ -451,6 +451,12 @@ func (tps *TPS) combineShares() PK {
 		}
 	}
 
+	// The sums are scalars modulo the group order
+	tps.sk.x.Mod(tps.pp.c.GroupOrder)
+	for i := 0; i < len(tps.sk.ys); i++ {
+		tps.sk.ys[i].Mod(tps.pp.c.GroupOrder)
+	}
+
 	pk := PK{
 		X: tps.pp.g2.Mul(tps.sk.x),
 		Y: make([]*math.G2, len(tps.sk.ys)),
